@@ -13,6 +13,8 @@ use std::time::Duration;
 pub enum Beh {
     Normal(u16),
     GetBody(u64),
+    /// fetch the body (limit), then on the second call behave like the boxed behaviour
+    GetBodyThen(u64, Box<Beh>),
     AlwaysGetBody(u64),
     Drop,
     Panic,
@@ -47,6 +49,18 @@ fn handler(req: Request) -> Response {
         Beh::GetBody(m) => {
             if req.body.is_pending() { Response::get_body_and_reprocess(m) } else { Response::text(200, format!("got-{path}-{}", req.body.len().unwrap_or(0))) }
         }
+        Beh::GetBodyThen(m, second) => {
+            if req.body.is_pending() {
+                Response::get_body_and_reprocess(m)
+            } else {
+                match *second {
+                    Beh::Normal(code) => Response::text(code, format!("resp-{path}")),
+                    Beh::Drop => Response::drop_connection(),
+                    Beh::Panic => panic!("scripted handler panic"),
+                    _ => Response::get_body_and_reprocess(m),
+                }
+            }
+        }
         Beh::AlwaysGetBody(m) => Response::get_body_and_reprocess(m),
         Beh::Drop => Response::drop_connection(),
         Beh::Panic => panic!("scripted handler panic"),
@@ -67,15 +81,15 @@ fn executor() -> &'static Arc<safina::executor::Executor> {
 }
 
 /// One server per (small_body_len, cache dir?) configuration, started lazily and kept for the process.
-pub fn server(small: usize, cache: bool) -> Server {
-    static SERVERS: OnceLock<Mutex<HashMap<(usize, bool), (SocketAddr, Option<PathBuf>)>>> = OnceLock::new();
+pub fn server(small: usize, cache: u8) -> Server {
+    static SERVERS: OnceLock<Mutex<HashMap<(usize, u8), (SocketAddr, Option<PathBuf>)>>> = OnceLock::new();
     let map = SERVERS.get_or_init(|| Mutex::new(HashMap::new()));
     let mut g = map.lock().unwrap();
     if let Some((addr, dir)) = g.get(&(small, cache)) {
         return Server { addr: *addr, cache: dir.clone() };
     }
-    let dir = if cache {
-        let d = super::c06::scratch_dir().join(format!("cache-{small}"));
+    let dir = if cache > 0 {
+        let d = super::c06::scratch_dir().join(format!("cache-{small}-{cache}"));
         let _ = std::fs::remove_dir_all(&d);
         std::fs::create_dir_all(&d).unwrap();
         Some(d)
@@ -88,6 +102,10 @@ pub fn server(small: usize, cache: bool) -> Server {
     }
     let (addr, stopped) = executor().block_on(b.spawn(handler)).unwrap();
     std::mem::forget(stopped);
+    if cache == 2 {
+        // the cache directory disappears after the server started: every upload fails to create its file
+        let _ = std::fs::remove_dir_all(dir.as_ref().unwrap());
+    }
     g.insert((small, cache), (addr, dir.clone()));
     Server { addr, cache: dir }
 }
@@ -121,6 +139,11 @@ pub fn request_bytes(spec: &str) -> (Vec<u8>, String, Beh) {
     }
     let b = match &beh[..1] {
         "n" => Beh::Normal(beh[1..].parse().unwrap()),
+        "g" if beh.contains('-') => {
+            let (m, second) = beh[1..].split_once('-').unwrap();
+            let sb = match &second[..1] { "n" => Beh::Normal(second[1..].parse().unwrap()), "d" => Beh::Drop, "p" => Beh::Panic, _ => Beh::AlwaysGetBody(0) };
+            Beh::GetBodyThen(m.parse().unwrap(), Box::new(sb))
+        }
         "g" => Beh::GetBody(beh[1..].parse().unwrap()),
         "a" => Beh::AlwaysGetBody(beh[1..].parse().unwrap()),
         "d" => Beh::Drop,
@@ -180,7 +203,7 @@ fn read_one_response(c: &mut TcpStream, acc: &mut Vec<u8>) -> bool {
 /// args: small_body_len, cache (0|1), schedule (single|bytes|frag|pingpong|cut<N>), requests
 pub fn case(ctx: &mut Ctx, tag: &str, small: &str, cache: &str, schedule: &str, requests: &str) {
     let small_n: usize = small.parse().unwrap();
-    let cache_b = cache == "1";
+    let cache_b: u8 = cache.parse().unwrap();
     let sched = schedule.to_string();
     let reqs = requests.to_string();
     let seed = ctx.seed ^ ctx.count;
@@ -210,6 +233,7 @@ pub fn case(ctx: &mut Ctx, tag: &str, small: &str, cache: &str, schedule: &str, 
         };
         let mut rng = Rng::new(seed);
         let mut peak = 0usize;
+        let mut others: Vec<Vec<u8>> = Vec::new();
         match sched.as_str() {
             "single" => { let _ = client.write_all(&all); }
             "bytes" => { for b in &all { if client.write_all(&[*b]).is_err() { break; } } }
@@ -228,6 +252,20 @@ pub fn case(ctx: &mut Ctx, tag: &str, small: &str, cache: &str, schedule: &str, 
                     if client.write_all(bytes).is_err() { break; }
                     if !read_one_response(&mut client, &mut transcript) { break; }
                 }
+            }
+            "par3" => {
+                // two more connections send the same bytes concurrently
+                let addr = srv.addr;
+                let hs: Vec<_> = (0..2).map(|_| { let a = all.clone(); std::thread::spawn(move || {
+                    let mut c = TcpStream::connect(addr).unwrap();
+                    let mut rc = c.try_clone().unwrap();
+                    let r = std::thread::spawn(move || read_all(&mut rc));
+                    let _ = c.write_all(&a);
+                    let _ = c.shutdown(Shutdown::Write);
+                    r.join().unwrap()
+                })}).collect();
+                let _ = client.write_all(&all);
+                for h in hs { others.push(h.join().unwrap()); }
             }
             s if s.starts_with("cut") => {
                 // send only the first N bytes, then disconnect abruptly (after a short pause so the server starts the upload)
@@ -251,7 +289,14 @@ pub fn case(ctx: &mut Ctx, tag: &str, small: &str, cache: &str, schedule: &str, 
             std::thread::sleep(Duration::from_millis(2));
             files_after = count_files(&srv.cache);
         }
-        let log = shared().lock().unwrap().log.clone();
+        let mut log = shared().lock().unwrap().log.clone();
+        let _ = peak;
+        if sched == "par3" {
+            log.sort();
+            if others.iter().any(|o| *o != transcript) {
+                transcript = b"TRANSCRIPTS-DIFFER".to_vec();
+            }
+        }
         format!("calls={} wire={} files={}", log.join("|"), enc(&transcript), files_after.saturating_sub(before))
     });
     ctx.emit(tag, &[small, cache, schedule, requests], &obs);
@@ -303,4 +348,78 @@ fn rng_pick<T>(xs: &[T]) -> &T {
     use std::cell::Cell;
     thread_local! { static K: Cell<usize> = const { Cell::new(0) }; }
     K.with(|k| { k.set(k.get().wrapping_add(7)); &xs[k.get() % xs.len()] })
+}
+
+/// C09: the S x M x L boundary grid (declared / undeclared, with / without Expect, cache dir on / off).
+pub fn run_c09(ctx: &mut Ctx) {
+    let mut idx = 0u64;
+    for s in [0u64, 1, 100, 65536] {
+        let mut ms: Vec<u64> = vec![0, 1, s.saturating_sub(1), s, s + 1, 70_000, 1 << 63, u64::MAX];
+        ms.sort(); ms.dedup();
+        for m in ms {
+            let mut ls: Vec<u64> = vec![0, 1, s.saturating_sub(1), s, s + 1, m.saturating_sub(1), m, m.saturating_add(1), m.saturating_add(2)];
+            ls.sort(); ls.dedup();
+            for l in ls {
+                for declared in [true, false] {
+                    for expect in [false, true] {
+                        for cache in ["1", "0"] {
+                            // bodies are capped at 150 KB; a larger *declared* length is sent with a short body (client EOF)
+                            let actual = l.min(150_000) as usize;
+                            if !declared && l > 150_000 { continue; }
+                            if cache == "0" && !(l <= 1 || l == s || l == s + 1) { continue; }
+                            let framing = match (declared, expect) {
+                                (true, false) => if l as usize == actual { "k".to_string() } else { format!("d{l}") },
+                                (true, true) => if l as usize == actual { "e".to_string() } else { format!("f{l}") },
+                                (false, false) => "u".to_string(),
+                                (false, true) => "v".to_string(),
+                            };
+                            idx += 1;
+                            if !ctx.mine(idx) { continue; }
+                            let body = enc(&(0..actual).map(|i| b'a' + (i % 23) as u8).collect::<Vec<u8>>());
+                            let req = format!("POST:/r0:{framing}:{body}:g{m}");
+                            case(ctx, "c09", &s.to_string(), cache, if idx % 3 == 0 && actual < 20_000 { "frag" } else { "single" }, &req);
+                        }
+                    }
+                }
+            }
+        }
+    }
+}
+
+/// C10: uploads cut by client disconnect at offset classes x handler outcome after receipt x cache dir removed x concurrency.
+pub fn run_c10(ctx: &mut Ctx) {
+    let mut idx = 0u64;
+    let mut rng = Rng::new(ctx.seed.wrapping_add(10));
+    let lens: Vec<usize> = if ctx.thorough() { vec![1, 200, 8191, 8192, 8193, 65536, 100_000] } else { vec![200, 8192, 70_000] };
+    for len in lens {
+        let body = enc(&(0..len).map(|i| b'A' + (i % 26) as u8).collect::<Vec<u8>>());
+        for framing in ["k", "u", "e"] {
+            for second in ["", "-n200", "-n503", "-d", "-p", "-a"] {
+                for m in [len as u64, 1_000_000, (len as u64).saturating_sub(1)] {
+                    let req = format!("POST:/r0:{framing}:{body}:g{m}{second};GET:/r1:n::n200");
+                    // complete upload, different deliveries
+                    for sched in ["single", "frag", "par3"] {
+                        idx += 1;
+                        if ctx.mine(idx) && (sched != "frag" || len < 20_000) {
+                            case(ctx, "c10", "100", "1", sched, &req);
+                        }
+                    }
+                    // cache dir removed
+                    idx += 1;
+                    if ctx.mine(idx) { case(ctx, "c10", "100", "2", "single", &req); }
+                }
+            }
+            // client disconnects at offset classes of the upload
+            let head_len = request_bytes(&format!("POST:/r0:{framing}:{body}:g1000000")).0.len() - len;
+            for off in [0usize, 1, 4096, 8192 - head_len.min(8192), len.saturating_sub(1), len, len + 1] {
+                let cut = head_len + off.min(len + 30);
+                idx += 1;
+                if ctx.mine(idx) {
+                    let second = *rng.pick(&["", "-n200", "-p"]);
+                    let req = format!("POST:/r0:{framing}:{body}:g1000000{second};GET:/r1:n::n200");
+                    case(ctx, "c10", "100", "1", &format!("cut{cut}"), &req);
+                }
+            }
+        }
+    }
 }
